@@ -3,7 +3,7 @@
     byte stream [s : list N], every msize, every [lookup] (what lookup(tag,type)
     answers) and every body decoder verdict [dec]. *)
 From Coq Require Import NArith List Bool.
-From P9V Require Import gen.ConstGen Frame.Model Frame.ListN Frame.FrameProofs.
+From P9V Require Import gen.ConstGen Frame.Model Frame.ListN Frame.FrameProofs Frame.Instantiate.
 Import ListNotations.
 Open Scope N_scope.
 
@@ -73,6 +73,16 @@ Section C02.
     (exists t, frame_event lookup dec msize f = EvRlerror t).
   Proof. exact (frame_event_kind lookup dec). Qed.
 
+  (** server level: one reply per frame, in order of the frames, and the frames after a rejected one
+      are still served.  [frame_reply f] = (tag, must be Rlerror): an unknown type is answered
+      Rlerror under the frame's own tag, a body-level rejection (fixed part does not fit, decoder
+      overruns) Rlerror under NOTAG, a decodable request is handled and answered under its tag *)
+  Theorem C02_server_replies : forall closed msize fs rest,
+    Forall (well_delimited msize) fs ->
+    replies (serve lookup dec closed msize (concat fs ++ rest)) =
+      map (frame_reply lookup dec) fs ++ replies (serve lookup dec closed msize rest).
+  Proof. exact (serve_replies lookup dec). Qed.
+
   (** a refused size field ends the session: nothing after it is served *)
   Theorem C02_shutdown : forall closed msize s,
     7 <= len s -> hdr_check msize (le32 s) = false -> serve lookup dec closed msize s = [EvShutdown].
@@ -99,8 +109,59 @@ Print Assumptions C02_buffer_bound.
 Print Assumptions C02_deliver_exact.
 Print Assumptions C02_resync.
 Print Assumptions C02_frame_event.
+Print Assumptions C02_server_replies.
 Print Assumptions C02_shutdown.
 Print Assumptions C02_truncated.
+
+(** ** with the real message layouts (Codec/, C01's development): lookup and the decoder's verdict
+    computed from a layout registry [tbl] instead of being parameters *)
+
+(** the two independently written models of transport.go recv (Codec/Frame.v and Frame/Model.v)
+    agree on every byte stream and msize: same classification, same tag, same leftover bytes, and
+    the message Codec decodes is the decoding of exactly the delivered fixed part ++ payload *)
+Theorem C02_models_agree : forall tbl msize s,
+  match CF.recv msize tbl s with
+  | CF.RConnErr => exists c, fst (recv (lookup_codec tbl) (decode_codec tbl) true msize s) = ConnErr c
+  | CF.RUnknown t rest =>
+      CF.lookup (hdr_typ s) tbl = None /\
+      exists c, fst (recv (lookup_codec tbl) (decode_codec tbl) true msize s) = Reject t c /\ rest = dropN c s
+  | CF.RInvalid rest =>
+      exists c, fst (recv (lookup_codec tbl) (decode_codec tbl) true msize s) = Reject noTag c /\ rest = dropN c s
+  | CF.ROk t ty mv rest =>
+      exists b p c ml, fst (recv (lookup_codec tbl) (decode_codec tbl) true msize s) = Deliver t ty b p c /\
+                       rest = dropN c s /\ CF.lookup ty tbl = Some ml /\ CF.recv_body ml (b ++ p) = Some mv
+  end.
+Proof. exact recv_agrees. Qed.
+Print Assumptions C02_models_agree.
+
+(** a delivered message is the decoding, by its type's layout, of exactly the size-7 bytes after
+    the frame's header: its field values are the ones encoded in the frame ... *)
+Theorem C02_deliver_values : forall tbl closed msize s t ty b p c,
+  fst (recv (lookup_codec tbl) (decode_codec tbl) closed msize s) = Deliver t ty b p c ->
+  exists ml mv, CF.lookup ty tbl = Some ml /\ b ++ p = takeN (c - 7) (dropN 7 s) /\
+                CF.recv_body ml (takeN (c - 7) (dropN 7 s)) = Some mv.
+Proof. exact deliver_values. Qed.
+Print Assumptions C02_deliver_values.
+
+(** ... and for every frame [send] writes (any registered layout, any well-formed value, any
+    bytes following it) recv delivers it, consuming exactly its size, with exactly the field values
+    that were encoded (up to mnorm: permission bits masked, Rreaddir cut to whole entries) *)
+Theorem C02_deliver_sent : forall tbl closed msize tag typ ml mv rest,
+  CF.lookup typ tbl = Some ml -> CF.ml_ok ml = true -> CF.mwf ml mv = true -> tag < 65536 ->
+  CF.frame_size ml mv <= msize -> CF.frame_size ml mv <= 4194304 ->
+  exists b p, fst (recv (lookup_codec tbl) (decode_codec tbl) closed msize (CF.send tag typ ml mv ++ rest))
+                = Deliver tag typ b p (CF.frame_size ml mv) /\
+              CF.recv_body ml (b ++ p) = Some (CF.mnorm ml mv) /\
+              dropN (CF.frame_size ml mv) (CF.send tag typ ml mv ++ rest) = rest.
+Proof. exact deliver_sent. Qed.
+Print Assumptions C02_deliver_sent.
+
+(** the protocol table (65 layouts, Codec/Spec9P.v, proved equal to what go2coq reads from
+    messages.go in Codec/GenCheck.v) and the registry FrameGen reads from init()/FixedSize()
+    give the same lookup for all 256 type numbers *)
+Theorem C02_registry : forall tag typ, typ < 256 -> spec_lookup tag typ = framegen_lookup tag typ.
+Proof. exact registries_agree. Qed.
+Print Assumptions C02_registry.
 
 (** the hypotheses are satisfiable: an 11-byte frame of type 120 (Tclunk) with tag 5 *)
 Example C02_wd_example : well_delimited 8192 [11; 0; 0; 0; 120; 5; 0; 1; 0; 0; 0].
